@@ -17,6 +17,8 @@ encoding (`-` = empty string); a list of strings is printed `[h,h,...]`.
   parsed <hexd> <hexrd> <hex>               parse_int_list / int_ranges_from_int_list with delimiters d / rd
   compld <hexd> <hexrd> <hex> <a> <e|N>     complement_int_list(text, a, e, d, rd)
                                (d, rd: one-character strings, else `bad-op`)
+  fmts / parses / compls       as fmtd / parsed / compld with NON-EMPTY STRING delimiters (formatIntListS, parseIntListS,
+                               complementIntListS, intRangesS); an empty delimiter -> `bad-op`
   table                        the generated safe-character ranges, printed back
   tables2                      the other generated facts (splice, its pieces, quote-forcing class, default delimiters), printed back
   -- acceptance of the text the IMPLEMENTATION produced (round 3; the correspondence proper):
@@ -54,6 +56,12 @@ def char? (h : String) : Option Char :=
   | some s => match s.toList with
     | [c] => some c
     | _ => none
+  | none => none
+
+/-- a non-empty string -/
+def str1? (h : String) : Option Str :=
+  match hexToString? h with
+  | some s => if s.toList.isEmpty then none else some s.toList
   | none => none
 
 def esa (w : Bool) (st : String) (toks : List String) : String :=
@@ -105,6 +113,26 @@ def handle (line : String) : String :=
     | none => "bad-op"
   | "esa" :: st :: toks => esa false st toks
   | "esaw" :: st :: toks => esa true st toks
+  | ["fmts", sp, hd, hr, l] =>
+    match natList? l, str1? hd, str1? hr with
+    | some l, some d, some rd =>
+      if sp = "0" ∨ sp = "1" then
+        let t := formatIntListS l (sp = "1") d rd
+        s!"T{hexOf t} P{showOptNats (parseIntListS t d rd)} R{showOptRanges (intRangesS t d rd)}"
+      else "bad-op"
+    | _, _, _ => "bad-op"
+  | ["parses", hd, hr, h] =>
+    match str1? hd, str1? hr, hexToString? h with
+    | some d, some rd, some s =>
+      s!"P{showOptNats (parseIntListS (toStr s) d rd)} R{showOptRanges (intRangesS (toStr s) d rd)}"
+    | _, _, _ => "bad-op"
+  | ["compls", hd, hr, h, a, e] =>
+    match str1? hd, str1? hr, hexToString? h, a.toInt?, (if e = "N" then some none else e.toInt?.map some) with
+    | some d, some rd, some s, some a, some e =>
+      match complementIntListS (toStr s) a e d rd with
+      | some t => s!"T{hexOf t}"
+      | none => "ValueError"
+    | _, _, _, _, _ => "bad-op"
   | ["fmtd", sp, hd, hr, l] =>
     match natList? l, char? hd, char? hr with
     | some l, some d, some rd =>
